@@ -238,7 +238,8 @@ impl<T: MomTropFloat> SquareMatrix<T> {
                 println!("error: {:?}", error);
             }
 
-            if error > error.from_f64(tolerance) {
+            // `error > tolerance` is false for a NaN error: accept only a confirmed small error
+            if !(error <= error.from_f64(tolerance)) {
                 if settings.print_debug_info {
                     println!("Inversion unstable");
                 }
